@@ -79,7 +79,7 @@ fn prefixed(prefix: &[Tok], alts: Vec<Toks>) -> Vec<Toks> {
 // ---------------------------------------------------------------------------
 
 /// A string with escapes, a comment marker and brackets inside it.
-pub const TRICKY_STRING: &str = r#""a\"b\\c\né //x ([{ \/ é𝄞""#;
+pub const TRICKY_STRING: &str = r#""a\"b\\c\né //x ([{ \/ é𝄞 \u00e9\ud834\udd1e""#;
 
 pub fn literals() -> Vec<Toks> {
     vec![
